@@ -80,6 +80,13 @@ def c02_trace(tid, m, m2, d):
         ev.append({"op": "enc2", "before": b0, "after": a1, "bytes": list(by1), "raised": ""})
         by2 = bytes([o.function_code]) + o.encode()
         ev.append({"op": "enc2", "before": a1, "after": P.project(o), "bytes": list(by2), "raised": ""})
+        if hasattr(o, "get_response_pdu_size"):
+            # what the transaction manager does between building a request and sending it: asking for the predicted reply size must
+            # not change what the message encodes to
+            a2 = P.project(o)
+            o.get_response_pdu_size()
+            by3 = bytes([o.function_code]) + o.encode()
+            ev.append({"op": "enc2", "before": a2, "after": P.project(o), "bytes": list(by3), "raised": ""})
     except Exception as ex:
         ev.append({"op": "enc2", "before": {"t": "x"}, "after": {"t": "x"}, "bytes": [], "raised": type(ex).__name__})
         return {"id": tid, "ev": ev}
